@@ -50,6 +50,7 @@ class Contract:
         self.gen = None              # python source of a generator of concrete inputs (for replay search)
         self.entropy_clause = None
         self.setup_code = None
+        self.ghost_params = {}
 
     # -- builder API ---------------------------------------------------------------------------
     def params(c, **kw):
@@ -88,7 +89,7 @@ class Contract:
         ls.invariants.append(Clause("invariant", name or "inv%d.%d" % (ordinal, len(ls.invariants)), invariant, None, tags))
         return self
 
-    def ghost(self, ordinal, name, init, update):
+    def loop_ghost(self, ordinal, name, init, update):
         ls = self.loops.setdefault(ordinal, LoopSpec(ordinal))
         ls.ghost.append((name, init, update)); return self
 
@@ -125,6 +126,9 @@ class Contract:
     def generator(self, src):
         self.gen = src; return self
 
+    def ghost(c, **kw):
+        c.ghost_params.update(kw); return c
+
     def setup(self, code):
         self.setup_code = code; return self
 
@@ -141,6 +145,7 @@ class Registry:
         self.invariants = {}      # class qual -> [Clause]
         self.lemmas = {}          # property-level lemmas: name -> function
         self.props = {}           # property id -> PropertySpec
+        self.ghosts = {}          # qual -> (module name, python source of a ghost program)
 
     def contract(self, qual):
         c = self.contracts.get(qual)
@@ -157,6 +162,11 @@ class Registry:
 
     def get(self, qual):
         return self.contracts.get(qual)
+
+    def ghost_function(self, qual, module, src):
+        import textwrap
+        self.ghosts[qual] = (module, textwrap.dedent(src))
+        return self.contract(qual)
 
 
 REG = Registry()
